@@ -190,6 +190,11 @@ def run(chk):
         for k in range(40, len(longrule) - 1, 4):
             for tok in (')', ']', '}'):
                 descs.append(longrule[:k] + tok + longrule[k:] + line2)
+    # white space that the description language does not skip itself, after the last token (no line break in between)
+    for d0 in ('A = "a"', 'start = [A, B]\nA = "a"\nB = /b+/', 'class K { x: "a" }', '"a" | "b"'):
+        for ws in ('\x0c', '\x0b', '\xa0', '\u2003', '\x1c', ' \x0c', '\t\x0b ', '\x0c\n', '\n\x0c'):
+            descs.append(d0 + ws)
+            descs.append(ws + d0)
     base = list(descs)
     for d in base:
         for _ in range(10 if chk.tier == 'quick' else 40):
